@@ -44,6 +44,8 @@ fn any_size(max: usize) -> usize {
 // ---- recording allocator shims --------------------------------------------
 
 struct Rec {
+    /// unique first bytes: see mock_task::Globals
+    magic: u64,
     n_alloc: u32,
     a_size: usize,
     a_align: usize,
@@ -61,6 +63,7 @@ struct Rec {
 }
 
 static mut R: Rec = Rec {
+    magic: 0x6332_345f_7265_6300,
     n_alloc: 0,
     a_size: 0,
     a_align: 0,
